@@ -73,7 +73,8 @@ CHECKS = {
         'text': 'Writer/reader agreement: every opcode the serializer can write has a decoder branch with the same operand layout that '
                 'replays the call which writes that opcode, reading distinct stack slots at the positions the tracker binds; Publish is '
                 'replayed per phase; the decode loop ends only at end of input; unknown bytes raise. Five genuine gaps are recorded as '
-                'known findings. Equality of the replayed state on concrete modules is not observed. writer-lossless: in every encoding case each argument of the call is written, tied to a stack slot by the tracker, or forced to its default by the condition selecting the case (24 cases).',
+                'known findings. Equality of the replayed state on concrete modules is not observed. writer-lossless: in every encoding case each argument of the call is written, tied to a stack slot by the tracker, or forced to its default by the condition selecting the case (24 cases).'
+                ' The opcode dispatched on is Instruction(<the byte the loop condition read>), unchanged; the k-th operand read is handed to the parameter the k-th written operand comes from (reader-order: a swap of two equally shaped operands replays another term).',
         'note': 'Trusted: python ast. Known findings: no decoder branch for Quantifier/Generalization, constraint element types, Publish in gamma/proof phases.',
         'design_ref': 'DESIGN.md section 3, C14',
     },
@@ -188,7 +189,8 @@ CHECKS = {
                 'weights 20*5^i; mandatory hypotheses are numbered 1,2,.. from the insertion-ordered list of floating hypotheses '
                 '(database order), never from a set (hash-seed dependent) nor merely sorted. The numeric decoding of all step numbers, '
                 'Z placement and whitespace layouts are not decided. Labels registered from `text.split(sep)` with an explicit separator must filter empty tokens (the empty list `( )` is legal); where numbers past the label list are resolved (translate.exec_proof) every Z saves and remembers the top unconditionally and number n reloads slot n - len(labels) - 1 (shared with C16). A regular expression that cuts the proof into steps must repeat the high-digit class U-Y without bound before one A-T (read with re\'s parser); hash() / id() is never used as the identity of a term outside __hash__.'
-                ' The hypothesis numbering is found in converter helpers and in comprehension form; the number->label table extended with a proof\'s labels is created per proof (label-table-fresh); a decoder written with zip over a place-value table needs a table that reaches 10^6. The digit weights are decided by induction-variable analysis of the decoding loop (constants, pow(5, counter), running products); the set that selects the mandatory hypotheses is <statement>.get_metavariables(), and numbering in the order of another collection of the converter is a violation.',
+                ' The hypothesis numbering is found in converter helpers and in comprehension form; the number->label table extended with a proof\'s labels is created per proof (label-table-fresh); a decoder written with zip over a place-value table needs a table that reaches 10^6. The digit weights are decided by induction-variable analysis of the decoding loop (constants, pow(5, counter), running products); the set that selects the mandatory hypotheses is <statement>.get_metavariables(), and numbering in the order of another collection of the converter is a violation.'
+                ' The decoded number is exactly ls[last letter] plus the weighted high digits (also when the decoder is written in place in the loop over the letters); the letter buffer is emptied exactly on the iterations that close a number; the listed labels continue at len(table) + 1 and advance by one per label.',
         'note': 'Trusted: python ast; _floating_patterns is appended in database order.',
         'design_ref': 'DESIGN.md section 3, C15',
     },
@@ -218,7 +220,8 @@ CHECKS = {
                 'is asserted to prove the target before publication; Interpreter.pattern nets +1 on every arm. NOT decided: the '
                 'converter\'s images of terms, notations and axioms, nor acceptance of any database (run-time data); proofs using other '
                 'proof rules are outside the stated fragment (reported as advisory). The numbering of the target\'s mandatory hypotheses and the label-list tokens are checked with C15\'s rules (the replay resolves the letters through them). get_delta adds exactly one entry per metavariable label on every path; every Axiom / Lemma the converter builds takes its `metavars` from the statement\'s variables, never from the metavariables of the converted pattern (the assumption of the stack rule, checked at its 5 construction sites).'
-                ' Rules with antecedents unite their own metavariables with those of every antecedent (floats-from-statement/union), read through converter helpers. The step numbers are decoded with C15\'s digit tables and digit order; the n-ary application of an undeclared constructor is curried over its arguments front to back (curried-in-argument-order); main() constructs the module with the declared axioms and the patterns of all lemmas as claims.',
+                ' Rules with antecedents unite their own metavariables with those of every antecedent (floats-from-statement/union), read through converter helpers. The step numbers are decoded with C15\'s digit tables and digit order; the n-ary application of an undeclared constructor is curried over its arguments front to back (curried-in-argument-order); main() constructs the module with the declared axioms and the patterns of all lemmas as claims.'
+                ' Essential hypotheses of an axiom are set aside top-first, remembered as (name, proof) of the very stack top, and discharged in the reverse order by load + modus ponens (antecedent-discharge); a label no branch claims may not be passed over silently. The listed labels are numbered consecutively after the hypotheses (shared with C15).',
         'note': 'Trusted: tracker effects (decided under C04), prelude statements in the benchmark databases, assumption that the '
                 'mandatory floats of a non-prelude label are get_metavars_in_order(label) and its essentials are the antecedents.',
         'design_ref': 'DESIGN.md section 3, C16',
@@ -236,7 +239,8 @@ CHECKS = {
                 'first and the lemma block last; floating hypotheses leave in one in-order pass over the insertion-ordered container; '
                 'set iterations in the slicer are triaged by name. Round-trip identity and re-verification of the compressed proof '
                 'are not decided. A `$d` over n variables is recorded as all n(n-1)/2 pairs (the loop headers are evaluated over four abstract variables); the parse transformer, which remembers declared variables, is created per parse and never at import time. Every node class reports the variables of all its term- or statement-valued children (no skipped kinds) - the slicer declares what get_metavariables reports; an optional field with a falsy inhabitant (proof: str | None) is never tested by truthiness in the printer / slicer / parser.'
-                ' The constant and variable scans recurse into nested blocks; `$v` is emitted only when the variable set is non-empty (grammar `$v token+`); a slice written as one tuple display is read as the equivalent appends. Every labelled statement is entered into the container of cut antecedents on every path of the scanning loop, whether or not a slice is emitted for it.',
+                ' The constant and variable scans recurse into nested blocks; `$v` is emitted only when the variable set is non-empty (grammar `$v token+`); a slice written as one tuple display is read as the equivalent appends. Every labelled statement is entered into the container of cut antecedents on every path of the scanning loop, whether or not a slice is emitted for it.'
+                ' A set iteration in the slicer is order-free only if all it produces in order is a run of `$d` statements (they commute), whatever its spelling; a `$d` restriction is emitted exactly under `pair <= declared variables`.',
         'note': 'Trusted: python ast; the grammar is read from the `syntax` constant of metamath/parser.py.',
         'design_ref': 'DESIGN.md section 3, C17',
     },
